@@ -8,7 +8,7 @@ import subprocess
 from .weave import REPO
 
 _KANI_CACHE = {}
-PROBED = {'C04', 'C12', 'C07', 'C15', 'C13', 'C14'}
+PROBED = {'C17', 'C01', 'C04', 'C12', 'C07', 'C15', 'C13', 'C14'}
 
 
 def _run(env_extra, timeout=1500):
